@@ -168,6 +168,39 @@ def twin_case(rng):
     return a + b, ("twin", n + 1, None)
 
 
+def rep_in_block_case(rng):
+    """A single-instruction repeat whose target is the LAST instruction of a block repeat (both loop mechanisms fire on
+    the same fetch): bkrep #L { modr r1+ ; rep #R ; modr r0+ }  ->  r1 = L+1, r0 = (L+1)(R+1)."""
+    L = rng.choice([0, 1, 2, 3, 7])
+    R = rng.choice([0, 1, 2, 4, 9, 200])
+    words = [0x5C00 | L, 0x104, 0x0089, 0x0C00 | R, 0x0088, IDLE]
+    s = ["bus new own"] + load(words) + ["bus run %x" % ((L + 1) * (R + 4) + 30)] + finish()
+    return s, ("repblock", (L + 1) * (R + 1), None)
+
+
+def frame_cases(rng, n):
+    """bkrepsto ; bkreprst through the stack and through an address register: the frames, level and flag come back
+    (frames with start and end in different 64K pages included)."""
+    out = []
+    for _ in range(n):
+        k = 1 + rng.below(4)
+        pokes = ["interp poke lp 1", "interp poke bcn %x" % k, "interp poke sp %x" % rng.choice([0x1000, 0x7000, 0x9000]),
+                 "interp poke pc 200", "interp poke ie 0", "interp poke rep 0"]
+        for i in range(4):
+            st = rng.choice([0x0FFF0, 0x2FFF0, 0x100, 0x1FFFF, rng.below(0x40000)])
+            en = rng.choice([st + 0x20, 0x10010, 0x30010, 0x3FFFF, rng.below(0x40000)]) & 0x3FFFF
+            pokes += ["interp poke bk_start%d %x" % (i, st), "interp poke bk_end%d %x" % (i, en), "interp poke bk_lc%d %x" % (i, rng.bits(16))]
+        via = rng.choice(["sp", "sp", "ar"])
+        if via == "sp":
+            a, b = "interp stepv 9468 0", "interp stepv 5f48 0"
+        else:
+            r = rng.below(4)
+            pokes += ["interp poke r%d %x" % (k, 0x2000 + 0x100 * k) for k in range(8)] + ["interp poke arrn%d %x" % (r, rng.choice([0, 1, 2, 3]))]
+            a, b = "interp stepv %x 0" % (0xDADC | r), "interp stepv %x 0" % (0xDA9C | r)
+        out.append(["interp gen %x" % rng.bits(40)] + pokes + ["interp dump", a, b])
+    return out
+
+
 def five_deep(rng):
     """A fifth nested block repeat trips the assertion (nesting is four deep)."""
     words = []
@@ -181,7 +214,27 @@ def five_deep(rng):
 _META = {}
 
 
+def frame_inspect(script, impl):
+    import gen_flat
+    names = [n for n, *_ in gen_flat.flat()]
+    if any(r.split(" ")[0] in vlib.ABORTS for r in impl):
+        return []
+    k0 = script.index("interp dump")
+    before = dict(zip(names, impl[k0].split()))
+    t = impl[-1].split()
+    after = dict(zip(names, t[1:] if t and t[0] == "ok" else t))
+    keep = ["lp", "bcn"] + [n for n in names if n.startswith("bk_")]
+    diff = [n for n in keep if before.get(n) != after.get(n)]
+    # the frame above the saved one (index bcn-1 after the store) is what the pair moves; frames are compared as a whole
+    if diff:
+        return [("bkrepsto followed by bkreprst does not restore the loop state: %s"
+                 % ", ".join("%s %s->%s" % (n, before[n], after.get(n)) for n in diff[:5]), len(script) - 1)]
+    return []
+
+
 def inspect(script, impl):
+    if script and script[0].startswith("interp"):
+        return frame_inspect(script, impl) if "interp dump" in script else []
     meta = _META.get(" ".join(script[:8]) + str(len(script)))
     # recover what the case expects from the script itself (replay has no meta): parse the program
     vals = {}
@@ -250,6 +303,8 @@ def expected_count(script):
         return pokes.get("r%d" % k, 0) + 1 if k < 6 else None
     if w == 0x0002:
         return pokes.get("r6", 0) + 1
+    if w & 0xFF00 == 0x5C00 and prog.get(0x103, 0) & 0xFF00 == 0x0C00 and prog.get(0x102) == 0x0089:
+        return ((w & 0xFF) + 1) * ((prog[0x103] & 0xFF) + 1)
     if w & 0xFF00 == 0x5C00:
         total, a, depth = 1, 0x100, 0
         while prog.get(a, 0) & 0xFF00 == 0x5C00 or prog.get(a) == 0x0000:
@@ -266,6 +321,8 @@ def expected_count(script):
 
 
 def signature(script, impl):
+    if script and script[0].startswith("interp"):
+        return [("frame", script[-1].split()[2], impl[-1].split(" ")[0])]
     out = []
     exp = expected_count(script)
     nnew = sum(1 for l in script if l.split()[1] == "new")
@@ -291,11 +348,13 @@ def explore(rng, tier, replay=None):
         scripts.append(rep_case(rng)[0])
         scripts.append(bkrep_case(rng)[0])
         scripts.append(twin_case(rng)[0])
+        scripts.append(rep_in_block_case(rng)[0])
     scripts.append(five_deep(rng)[0])
+    scripts += frame_cases(rng, 400 if tier == "quick" else 20000)
     # every immediate count once
     for k in range(0, 256, 1 if tier != "quick" else 5):
         scripts.append(["bus new own"] + load([0x0C00 | k, 0x0088, IDLE]) + ["bus run %x" % (k + 12)] + finish())
-    return corr.explore(PROP, scripts, judge=judge, signature=signature, inspect=inspect, model_first=True,
+    ctx = corr.explore(PROP, scripts, judge=judge, signature=signature, inspect=inspect, model_first=True,
                         rule="whole programs on a real Teakra::Teakra: `rep` with the count from an immediate (all 256 values in the "
                              "thorough tier), a register or r6 (incl. 0, 255, 256, 0xFFFF) followed by a counting instruction; block "
                              "repeats nested 1..4 deep with immediate counts, bodies of one- and two-word plain instructions (two-word "
@@ -303,7 +362,20 @@ def explore(rng, tier, replay=None):
                              "(r0) is compared ON THE IMPLEMENTATION with N+1 resp. the product of the (Ni+1), and rep/lp/bcn must be "
                              "clear afterwards; twins: a loop program against its body unrolled N+1 times, compared on every register "
                              "except pc and the stale loop frames and on the data memory written; a fifth nesting level (assertion); "
-                             "all scripts compared line by line with the model")
+                             "all scripts compared line by line with the model; a repeat whose target is the last instruction of a "
+                             "block; bkrepsto;bkreprst round trips (stack and address-register forms, 1..4 levels, frames crossing 64K "
+                             "pages) judged on the implementation; the rep/bkrep/break/bkrepsto/bkreprst instruction families from "
+                             "seeded, boundary and loop-state variants")
+    try:
+        from checks import alu_common
+        iv, istats = alu_common.instr_slice(rng, ["rep", "bkrep", "break_", "bkrepsto", "bkreprst"], 4 if tier == "quick" else 64)
+        ctx["violations"] = ctx.get("violations", []) + iv
+        ctx["instruction_slice"] = istats
+        ctx["evaluations"] = ctx.get("evaluations", 0) + istats["instruction_cases"]
+    except RuntimeError as ex:
+        ctx["violations"] = ctx.get("violations", []) + [("instruction slice could not run: " + str(ex)[-300:],
+                                                          {"kind": "error", "error": str(ex)[-2000:]}, False)]
+    return ctx
 
 
 def replay(rep):
